@@ -152,7 +152,17 @@ class ExprGen:
                 return ("fn", "ite", [self.gen(depth - 1), rnd() if r.random() < 0.8 else self.gen(depth - 1),
                                       rnd() if r.random() < 0.8 else self.gen(depth - 1)])
             return ("fn", "ite", [self.gen(depth - 1), self.gen(depth - 1), self.gen(depth - 1)])
+        if self.allow_fn and r.random() < 0.15:
+            # the third function of FUNC_TABLE: accepted by the parser, FunctionNotImplemented when evaluated
+            return ("fn", "signExt", [self.gen(depth - 1), self.gen(depth - 1)])
         if self.allow_random and self.allow_fn:
+            y = r.random()
+            if y < 0.12:
+                # bounds that are not literals >= 2: an arbitrary expression (may be <= 1, may fail itself),
+                # 0, 1 and negative bounds (EmptyRandomRange, no draw)
+                return ("fn", "random", [self.gen(depth - 1)])
+            if y < 0.2:
+                return ("fn", "random", [r.choice([("num", 0), ("num", 1), ("un", "-", ("num", r.choice([1, 5]))), ("num", 2)])])
             return ("fn", "random", [("num", r.choice([2, 3, 10, 100, 2**31, 2**62]))])
         return self.atom()
 
@@ -352,6 +362,9 @@ class ProgGen:
                     cond = ("bin", "<", ("var", w), ("num", limit))
                     if r.random() < 0.3:
                         cond = ("bin", "&", cond, ("bin", "=", ("num", 1), ("num", 1)))
+                    elif r.random() < 0.15:
+                        # a condition that can fail to evaluate (read of an output that may be Z/X, division)
+                        cond = ("bin", "&", cond, ("bin", "|", self.egen(scope, depth=1), ("num", 1)))
                     out.append(("while", cond, body))
             elif x < 0.85 and p.get("random", 0) > 0:
                 out.append(("reset",))
